@@ -435,7 +435,7 @@ def c06(k, ctx):
 
 
 def c07(k, ctx):
-    ctx.rule = ("one case = one CCSDS code with its real matrix as row adjacency lists: the six AR4JA codes with k = 1024 / 4096 (all nine in thorough) and C2; ranks by bit-packed "
+    ctx.rule = ("one case = one CCSDS code with its real matrix as row adjacency lists: the six AR4JA codes with k = 1024 / 4096 (all nine in thorough; in quick the three k = 16384 codes are judged on size, column degrees and digest only) and C2; ranks by bit-packed "
                 "elimination; encoder acceptance and encodings for the codes up to 768 (1536 thorough) rows; girth of rate-1/2 k=1024 and of C2; SHA-256 vs pins/ccsds.json; "
                 "non-trivial = the distinct codes (exhaustive over the identifier set of the tier)")
     ctx.tlc_mc("MC_Ccsds", "MC_Ccsds.cfg")
@@ -447,9 +447,9 @@ def c07(k, ctx):
         ctx.nontrivial_keys.add(r.get("code"))
     ctx.exhaustive = True
     ctx.extra["codes"] = [r.get("code") for r in recs]
-    ctx.extra["ranks"] = {r["code"]: [r["rank"], r["tail_rank"]] for r in recs if r["o"] == "ok"}
-    ctx.extra["encoder_probed"] = [r["code"] for r in recs if r["o"] == "ok" and not r["enc"].get("skipped")]
-    ctx.samples = [{"code": r["code"], "nrows": r["nrows"], "ncols": r["ncols"], "row_0": r["rows"][0], "rank": r["rank"], "sha": r["sha"], "cyc6": r["cyc6"]} for r in recs[:1] + recs[-1:] if r["o"] == "ok"]
+    ctx.extra["ranks"] = {r["code"]: [r["rank"], r["tail_rank"]] for r in recs if r["o"] == "ok" and "rank" in r}
+    ctx.extra["encoder_probed"] = [r["code"] for r in recs if r["o"] == "ok" and "enc" in r and not r["enc"].get("skipped")]
+    ctx.samples = [{"code": r["code"], "nrows": r["nrows"], "ncols": r["ncols"], "row_0": r["rows"][0], "rank": r["rank"], "sha": r["sha"], "cyc6": r["cyc6"]} for r in recs[:1] + recs[-1:] if r["o"] == "ok" and "rows" in r]
     ctx.assumptions = ["TLC 1.8 + Json/IOUtils", "M table, protograph weights and C2 parameters typed from CCSDS 131.0-B; theta/phi tables and circulant offsets only compared with pins taken from the unchanged tree",
                        "GF(2) ranks, the 4-cycle test and SHA-256 are harness oracles (bit-packed elimination; sorted column pairs); the 6-cycle witnesses are verified by TLC edge by edge",
                        "encoder acceptance is probed only where the dense Gauss-Jordan of from_h finishes in seconds (<= 768 rows quick, <= 1536 thorough); invertibility of the last 3M columns is otherwise established by the rank oracle"]
